@@ -2,7 +2,7 @@
 From Coq Require Import List ZArith NArith Bool Arith String Ascii Lia QArith Qpower.
 From NV Require Import NumFmt.Model NumFmt.Proofs.
 Import ListNotations.
-Open Scope N_scope.
+Local Open Scope N_scope.
 
 (* ---------------------------------------------------------------- rounding *)
 Fixpoint valr (r : digits) : N := match r with [] => 0 | d :: r' => d + 10 * valr r' end.
